@@ -70,7 +70,13 @@ def c16_case(draw, tier):
         if names and t0.n * tr.n <= 4000:
             n = draw(st.sampled_from(names))
             on = [["fn", "eq", [["col", {"v": lv, "n": n}], ["col", {"v": rvv, "n": n}]], {}]]
-            j = g.emit({"out": g.new_var(), "verb": "join", "in": lv, "right": rvv, "how": draw(st.sampled_from(["inner", "left"])),
+            from ..findings import side_has_computed
+
+            how = draw(st.sampled_from(["inner", "left"]))
+            if how == "left" and side_has_computed({"steps": case["steps"]}, rvv):
+                how = "inner"  # K01 (open finding) excluded by construction
+                g.excluded["K01"] = g.excluded.get("K01", 0) + 1
+            j = g.emit({"out": g.new_var(), "verb": "join", "in": lv, "right": rvv, "how": how,
                         "on": on, "suffix": "_al"})
             if j is not None:
                 final = j
